@@ -32,6 +32,9 @@ def main():
     for d in sorted(glob.glob("/tmp/seed3/out/C??-?")):
         prop, x = os.path.basename(d).split("-")
         cands.append((prop, {"X": "E", "Y": "F"}.get(x, "G"), d, f"{d}/patch.diff", ""))
+    for d in sorted(glob.glob("/tmp/seed4/out/C??-?")):
+        prop, x = os.path.basename(d).split("-")
+        cands.append((prop, {"X": "G", "Y": "H"}.get(x, "I"), d, f"{d}/patch.diff", ""))
     for prop, X, d, patch, pre in cands:
         if True:
             sid = f"{prop}-{X}"
